@@ -1,0 +1,127 @@
+//! Verification hooks, only compiled with `--cfg a10_verif`.
+//!
+//! Allows a test harness to replace the five kernel entry points used by the
+//! io_uring implementation (`io_uring_setup`, `io_uring_enter`,
+//! `io_uring_register` and the `mmap`/`munmap` of the rings) with its own
+//! functions, and to get called at a number of scheduling points. Without
+//! anything installed all hooks are a load of a static and a branch.
+
+use std::ffi::{c_int, c_uint, c_void};
+use std::sync::atomic::{AtomicPtr, Ordering};
+
+/// Replacement for the kernel entry points.
+///
+/// All functions follow the libc convention: return `-1` (or `MAP_FAILED`) and
+/// set `errno` on failure.
+#[derive(Copy, Clone, Debug)]
+pub struct Kernel {
+    /// `io_uring_setup(2)`, `params` points to a `io_uring_params`.
+    pub setup: unsafe fn(entries: c_uint, params: *mut c_void) -> c_int,
+    /// `io_uring_register(2)`.
+    pub register:
+        unsafe fn(fd: c_int, opcode: c_uint, arg: *const c_void, nr_args: c_uint) -> c_int,
+    /// `io_uring_enter2(2)`.
+    pub enter: unsafe fn(
+        fd: c_int,
+        to_submit: c_uint,
+        min_complete: c_uint,
+        flags: c_uint,
+        arg: *const c_void,
+        size: usize,
+    ) -> c_int,
+    /// `mmap(2)` of one of the ring regions.
+    pub mmap:
+        unsafe fn(len: usize, prot: c_int, flags: c_int, fd: c_int, offset: i64) -> *mut c_void,
+    /// `munmap(2)` of one of the ring regions.
+    pub munmap: unsafe fn(addr: *mut c_void, len: usize) -> c_int,
+}
+
+static KERNEL: AtomicPtr<Kernel> = AtomicPtr::new(std::ptr::null_mut());
+
+/// Install `kernel`, replacing the real system calls for all rings created
+/// after this call.
+pub fn install(kernel: Kernel) {
+    let ptr = Box::into_raw(Box::new(kernel));
+    // NOTE: the old table is leaked on purpose, it might still be in use.
+    KERNEL.store(ptr, Ordering::Release);
+}
+
+/// Remove the installed kernel, going back to the real system calls.
+pub fn uninstall() {
+    KERNEL.store(std::ptr::null_mut(), Ordering::Release);
+}
+
+pub(crate) fn kernel() -> Option<&'static Kernel> {
+    // SAFETY: the tables are never deallocated.
+    unsafe { KERNEL.load(Ordering::Acquire).as_ref() }
+}
+
+/// Scheduler hooks.
+#[derive(Copy, Clone, Debug)]
+pub struct Sched {
+    /// Returns true if the calling thread is controlled by the scheduler.
+    pub active: fn() -> bool,
+    /// Called at a scheduling point, see the `POINT_*` constants.
+    pub point: fn(id: u32),
+    /// Called when a lock at `addr` could not be acquired, should let another
+    /// thread run.
+    pub lock_blocked: fn(addr: usize),
+}
+
+static SCHED: AtomicPtr<Sched> = AtomicPtr::new(std::ptr::null_mut());
+
+/// Install scheduler hooks.
+pub fn install_sched(sched: Sched) {
+    let ptr = Box::into_raw(Box::new(sched));
+    SCHED.store(ptr, Ordering::Release);
+}
+
+/// Remove the scheduler hooks.
+pub fn uninstall_sched() {
+    SCHED.store(std::ptr::null_mut(), Ordering::Release);
+}
+
+fn sched() -> Option<&'static Sched> {
+    // SAFETY: the tables are never deallocated.
+    unsafe { SCHED.load(Ordering::Acquire).as_ref() }
+}
+
+/// Before attempting to acquire a lock.
+pub const POINT_LOCK: u32 = 1;
+/// Before loading a value shared with the kernel (ring head/tail/flags).
+pub const POINT_LOAD_SHARED: u32 = 2;
+/// Before storing the submission queue tail.
+pub const POINT_SQ_TAIL_STORE: u32 = 3;
+/// Before storing the completion queue head.
+pub const POINT_CQ_HEAD_STORE: u32 = 4;
+/// Before storing the tail of a buffer ring (`ReadBufPool`).
+pub const POINT_BUF_TAIL_STORE: u32 = 5;
+/// Before changing the polling state in `Ring::poll`.
+pub const POINT_SET_POLLING: u32 = 6;
+/// Before changing the polling state in `SubmissionQueue::wake`.
+pub const POINT_WAKE: u32 = 7;
+/// After the unlocked queue-is-full check in the submission queue.
+pub const POINT_SQ_CHECKED: u32 = 8;
+/// Before registering a waker for a future blocked on a full queue.
+pub const POINT_WAIT_FOR_SUBMISSION: u32 = 9;
+
+pub(crate) fn sched_active() -> bool {
+    match sched() {
+        Some(sched) => (sched.active)(),
+        None => false,
+    }
+}
+
+pub(crate) fn sched_point(id: u32) {
+    if let Some(sched) = sched() {
+        if (sched.active)() {
+            (sched.point)(id);
+        }
+    }
+}
+
+pub(crate) fn lock_blocked(addr: usize) {
+    if let Some(sched) = sched() {
+        (sched.lock_blocked)(addr);
+    }
+}
